@@ -39,6 +39,12 @@ claimed={
  'C07':dict(level='fault_enumeration',engine='E3-store',technique='runtime monitoring: crash-point enumeration (SIGKILL at hook points) and backend fault injection with an independent at-rest cache auditor; porcupine linearizability check of recorded fs-backend histories',
    text='Every sampled (thorough: every) hook point hit of a build is a crash point: the real process is SIGKILLed there, the cache directory is audited at rest by an auditor that shares no code with grog (own xxh3/sha256, protowire decoding) and a follow-up build must succeed with reference bytes. In-process, a decorator fails the k-th backend call (whole or mid-stream) while two targets sharing digests are written, followed by the same audit. Concurrent Set/Get/Exists/Delete histories with unique self-describing values are checked with porcupine against a per-key register.',
    note='Crash points are between hooked operations, not inside one write(2); tmp-* files are ignored (invisible under a final key); remote backends are covered by C08.', ref='4/C07'),
+ 'C09':dict(level='exploration',engine='E6-static',technique='runtime monitoring: differential oracle - injective canonical encoding of the target state vs the real change hash under xxh3 and sha256, over generated related pairs',
+   text='hashing.GetTargetChangeHash is evaluated on real files for pairs of related states: equal states in different spellings (permutations, other workspace root, re-evaluation) must get equal keys; states differing across every component boundary (label|command, command|inputs, fingerprint key|value, separators inside list elements, content moved across file boundaries, missing vs empty, symlinked input content, bin_output vs output, platform) must get different keys under both hash algorithms. The output hash of a target is re-computed over repeated identical writes and must be stable.',
+   note='A collision is only reported when it happens under both algorithms (encoding collision). Duplicate entries in the input list are a lead (keys differ for equal states: harmless re-execution).', ref='4/C09'),
+ 'C17':dict(level='exploration',engine='E6-static',technique='runtime monitoring: exhaustive-bounded differential test of the label API against a reference matcher written from the docs',
+   text='Every string over {a,b,/,:,.,-} up to length 6 (thorough 8) and random longer fragment strings is parsed as label and pattern relative to three packages and matched against a bounded universe; round trips, shorthand and relative resolution, exact matching of the documented pattern forms at path-component boundaries and :all/:... semantics are compared with the reference.',
+   note='Strings outside the documented forms are checked for crashes and round trips only; package paths with empty components are leads.', ref='4/C17'),
 }
 na_reason='check under construction in this session: not claimed until its monitor is built and silent on the unchanged tree'
 checks=[]
@@ -52,7 +58,7 @@ m=dict(version=1, setup_cmd='./setup.sh',
   hooks=dict(guard='verif', enable='go build -tags verif (checks build /repo\'s working tree into /verif/.cache/<source-hash>/)',
      baseline_off_cmd="cd /repo && GOPROXY=off go test -json -vet=off -count=1 -timeout 25m ./...",
      source_commits=hook_commits, add_only=True),
-  engines=[dict(name='E2-sched', path='vctl/internal/e2 + harness/walker', serves_properties=['C03','C04'], kind_free_text='in-process drivers overlaid into the grog module (go test -c -overlay), run in child processes under -race / synctest; offline checkers over their logs'), dict(name='E3-store', path='vctl/internal/e2 + harness/store', serves_properties=['C06','C07'], kind_free_text='in-process driver for output handlers, CAS, target cache and fs backend (restore exactness, fault-injecting backend decorator, concurrent histories for porcupine); crash-point enumeration on the real binary'), dict(name='E1-histories', path='vctl/internal/e1', serves_properties=['C01','C02','C05','C13','C14','C15'], kind_free_text=E1)],
+  engines=[dict(name='E2-sched', path='vctl/internal/e2 + harness/walker', serves_properties=['C03','C04'], kind_free_text='in-process drivers overlaid into the grog module (go test -c -overlay), run in child processes under -race / synctest; offline checkers over their logs'), dict(name='E3-store', path='vctl/internal/e2 + harness/store', serves_properties=['C06','C07'], kind_free_text='in-process driver for output handlers, CAS, target cache and fs backend (restore exactness, fault-injecting backend decorator, concurrent histories for porcupine); crash-point enumeration on the real binary'), dict(name='E6-static', path='vctl/internal/e2/static.go + harness/static', serves_properties=['C09','C17'], kind_free_text='in-process differential drivers for the label algebra and the cache-key function against reference encodings'), dict(name='E1-histories', path='vctl/internal/e1', serves_properties=['C01','C02','C05','C13','C14','C15'], kind_free_text=E1)],
   checks=checks, not_applicable=na,
   notes='All checks are runtime monitors over executions of the real code. Known findings: KNOWN_FINDINGS.txt. Design: DESIGN.md.')
 json.dump(m, open(f'{V}/MANIFEST.json','w'), indent=1)
